@@ -77,7 +77,10 @@ def optOut : List String := [
   "BroadcastTrick",  -- user `name=` is used verbatim (ones/zeros/empty/full)
   "Ones", "Zeros", "Empty", "Full",  -- ditto (inherit BroadcastTrick._name)
   "FromMap",         -- `_name_prefix` is used verbatim when given
-  "FromDelayed"      -- `_name_prefix` is used verbatim when given
+  "FromDelayed",     -- `_name_prefix` is used verbatim when given
+  -- hand-built `_info` name: tokenizes the per-block seeds SPAWNED from `rng` (a derived value, read through
+  -- `rng._bit_generator` / `rng._numpy_state`), not the operand; covered by the random-array family of the registry
+  "Random", "RandomNormal", "RandomPoisson"
 ]
 
 /-- (class, operand) pairs the AST over-approximation lists as read by semantic members although they do not change
@@ -88,7 +91,12 @@ def nonSemantic : List (String × String) := [
   ("All", "meta"), ("Mean", "meta"), ("Var", "meta"), ("NanSum", "meta"), ("NanProd", "meta"), ("NanMin", "meta"),
   ("NanMax", "meta"), ("NanMean", "meta"), ("NanVar", "meta"),
   -- same hint one level down (dtype is the explicit `dtype` operand, which is tokenized)
-  ("PartialReduce", "reduced_meta")
+  ("PartialReduce", "reduced_meta"),
+  -- key-name PREFIX only (`_name = f"{name or token or funcname(func)}-{token}"`): never changes the array
+  ("Blockwise", "name"), ("Blockwise", "token"), ("SlidingWindowView", "name"), ("SlidingWindowView", "token"),
+  -- the name tokenizes `self.dtype`, the dtype of the EFFECTIVE meta; the `dtype` operand only feeds that meta when
+  -- `_meta_provided` is None, so it can differ between two nodes only where it does not reach the array
+  ("Blockwise", "dtype"), ("SlidingWindowView", "dtype")
 ]
 
 /-- semantic operands of class `i`, minus the justified exceptions -/
